@@ -421,6 +421,18 @@ def run(ses, rep):
     from .. import cfgorigin
     routes = cfgorigin.analyse(ses, rep)
     cfgorigin.confirm(rep, routes, "C15")
+    try:
+        pf = per_file_configuration(ses, rep)
+    except Inconclusive as e:
+        rep.add("format/per-file-configuration", "inconclusive", str(e)[:300], nontrivial=False)
+        pf = []
+    if pf:
+        v, rec = replay_per_file()
+        for oid, what, kind, info in pf:
+            if v:
+                rep.add(oid, rep.violation({"obligation": "per-file-configuration"}, {"what": what, "observed": v, "replay_kind": "per-file", "run": rec}), f"{what}; {v}")
+            else:
+                rep.add(oid, "inconclusive", f"{what}: files told apart by .editorconfig sections still get their own settings on the native build")
     rep.samples.append({"flagged": [(f[0], f[1]) for f in flagged + routes][:6]})
     if flagged:
         sc, v, rec = battery()
@@ -432,8 +444,109 @@ def run(ses, rep):
                 rep.add(oid, status, v)
 
 
+def per_file_configuration(ses, rep):
+    """format(): the configuration captured by a job closure is, by its ONLY definition, the Ok payload of a ConfigResolver::load_configuration
+    (load_configuration_for_stdin) call of the same loop iteration - and for a file job that call is made on the very path the job gets.
+    (A configuration kept from a previous file - same directory, `same` settings - is not what the documented search finds for THIS file:
+    .editorconfig sections select by file name.)"""
+    flagged = []
+    funcs = ses.mir("bin", "default")
+    fn = [f for f in funcs.get("format", []) if f.kind == "fn"]
+    if len(fn) != 1:
+        raise Inconclusive("format(): not found")
+    fn = fn[0]
+    defs = {}
+    for sts in fn.blocks.values():
+        for s_ in sts:
+            if s_[0] in ("call", "assign") and s_[1] is not None and not s_[1].proj:
+                defs.setdefault(s_[1].local, []).append(s_)
+
+    def origin(loc, steps=8):
+        """follow single-definition moves back to a call result: -> (callee, call statement) or (None, why)"""
+        while steps > 0 and loc is not None:
+            steps -= 1
+            ds = defs.get(loc.local, [])
+            if len(ds) != 1:
+                return None, f"{len(ds)} definitions of {loc.local}"
+            d_ = ds[0]
+            if d_[0] == "call":
+                last = canon(d_[2]).split("::")[-1]
+                if last in ("branch", "map_err", "context", "with_context", "into_result", "clone", "deref", "as_ref", "as_path", "borrow") and d_[3]:
+                    a0 = d_[3][0]
+                    loc = a0[1] if isinstance(a0, tuple) and len(a0) > 1 and hasattr(a0[1], "local") else None
+                    continue
+                return canon(d_[2]), d_
+            rv = d_[2]
+            if isinstance(rv, tuple) and rv[0] in ("use", "ref") and len(rv) > 1:
+                src = rv[-1] if rv[0] == "ref" else (rv[1][1] if isinstance(rv[1], tuple) and len(rv[1]) > 1 else None)
+                loc = src if hasattr(src, "local") else None
+                continue
+            return None, f"{loc.local} = {str(rv)[:60]}"
+        return None, "chain too long"
+    n = 0
+    for sts in fn.blocks.values():
+        for s_ in sts:
+            if not (s_[0] == "assign" and isinstance(s_[2], tuple) and s_[2][0] == "aggregate" and s_[2][1] == "closure"):
+                continue
+            fields = dict((k, v) for k, v in s_[2][4])
+            if "config" not in fields:
+                continue
+            n += 1
+            op = fields["config"]
+            loc = op[1] if isinstance(op, tuple) and len(op) > 1 and hasattr(op[1], "local") else None
+            callee, why = origin(loc)
+            ok = callee is not None and callee.split("::")[-1] in ("load_configuration", "load_configuration_for_stdin")
+            same_path = True
+            if ok and callee.split("::")[-1] == "load_configuration" and "path" in fields:
+                # the path argument of the call and the path moved into the closure are the same local (or a borrow of it)
+                pl = fields["path"][1].local if hasattr(fields["path"][1], "local") else None
+                arg = why[3][1] if len(why[3]) > 1 else None
+                al = arg[1] if isinstance(arg, tuple) and len(arg) > 1 and hasattr(arg[1], "local") else None
+                seen_ = set()
+                while al is not None and al.local != pl and al.local not in seen_:
+                    seen_.add(al.local)
+                    ds = defs.get(al.local, [])
+                    nxt = None
+                    if len(ds) == 1:
+                        d_ = ds[0]
+                        if d_[0] == "assign" and isinstance(d_[2], tuple) and d_[2][0] == "ref":
+                            nxt = d_[2][-1]
+                        elif d_[0] == "assign" and isinstance(d_[2], tuple) and d_[2][0] == "use" and isinstance(d_[2][1], tuple) and len(d_[2][1]) > 1:
+                            nxt = d_[2][1][1]
+                        elif d_[0] == "call" and canon(d_[2]).split("::")[-1] in ("deref", "as_ref", "as_path", "borrow") and d_[3]:
+                            nxt = d_[3][0][1] if isinstance(d_[3][0], tuple) and len(d_[3][0]) > 1 else None
+                    al = nxt if hasattr(nxt, "local") else None
+                same_path = al is not None and al.local == pl
+            oid = f"format/job-{n}/configuration-is-this-entry's-lookup"
+            r, m = ses.obligation(oid, [], z3.BoolVal(not (ok and same_path)), "job.config = Ok payload of load_configuration(<this path>) of this iteration, its only definition")
+            if r == "sat":
+                flagged.append((oid, "the configuration handed to a job is not (only) the result of the configuration search for that job's own path: "
+                                + (why if callee is None else callee.split("::")[-1] + ("" if same_path else " on another path")), "per-file", {}))
+    if n == 0:
+        raise Inconclusive("format(): no job closure captures a configuration")
+    return flagged
+
+
+def replay_per_file():
+    """two files of one directory that an .editorconfig tells apart by name, in one run, in both orders and through the directory"""
+    binp = common.native_build("default")
+    ec = "root = true\n\n[*.lua]\nindent_style = space\nindent_size = 2\n\n[*_spec.lua]\nindent_style = space\nindent_size = 7\n\n[special.lua]\nindent_style = tab\n"
+    files = {".editorconfig": ec, "d/plain.lua": SRC, "d/x_spec.lua": SRC, "d/special.lua": SRC, "d/other.lua": SRC}
+    want = {"d/plain.lua": OUT("  "), "d/other.lua": OUT("  "), "d/x_spec.lua": OUT(" " * 7), "d/special.lua": OUT("\t")}
+    for argv in (["d"], ["d/plain.lua", "d/x_spec.lua", "d/special.lua", "d/other.lua"], ["d/special.lua", "d/other.lua", "d/x_spec.lua", "d/plain.lua"],
+                 ["--num-threads", "1", "d/x_spec.lua", "d/plain.lua"], ["--num-threads", "1", "d/plain.lua", "d/x_spec.lua"]):
+        r = clireplay.run_cli(binp, files, argv)
+        for k, w in want.items():
+            if any(k == a or a == "d" for a in argv) and r["after"][k][0].decode() != w:
+                return f"{argv}: {k} is formatted as {r['after'][k][0].decode()!r}, its .editorconfig section asks for {w!r}", {"argv": argv, "files": sorted(files)}
+    return None, {}
+
+
 def fallback(rep):
     """kernels undecided: the configuration batteries are run; only a failing concrete oracle is reported"""
+    v, rec = replay_per_file()
+    if v:
+        rep.add("battery/per-file", rep.violation({"obligation": "battery-after-undecided-kernel", "scenario": "per-file"}, {"what": "kernel undecided; per-file configuration replay", "observed": v, "run": rec}), v)
     sc, v, rec = battery()
     if v:
         rep.add(f"battery/{sc}", rep.violation({"obligation": "battery-after-undecided-kernel", "scenario": sc}, {"what": "kernel undecided; configuration battery", "observed": v, "run": rec}), v)
@@ -444,6 +557,8 @@ def fallback(rep):
 
 def replay(path):
     sc, v, rec = battery()
+    if not v:
+        v, _ = replay_per_file()
     if not v:
         from .. import cfgorigin
         fails = cfgorigin.battery(common.native_build("default"))
